@@ -19,6 +19,9 @@ CHECKS = {
     'C19': {'engine': 'history',
             'quick': {'runs': 3000, 'len_range': (6, 30)},
             'thorough': {'runs': 40000, 'len_range': (8, 50)}},
+    'C13': {'engine': 'interleave',
+            'quick': {'runs': 1500, 'max_clients': 5, 'max_steps': 30},
+            'thorough': {'runs': 30000, 'max_clients': 6, 'max_steps': 40}},
 }
 
 
